@@ -4585,7 +4585,9 @@ func (op *op) UnmarshalBinary(data []byte) error {
 		}
 		op.value = 0
 	case opTypeAddRoaring, opTypeRemoveRoaring:
-		if len(data) < int(13+4+op.value) {
+		// op.value comes from the input: compare it before converting, so that
+		// 13+4+op.value can neither wrap around nor turn negative as an int.
+		if op.value > uint64(len(data)) || len(data) < int(13+4+op.value) {
 			return fmt.Errorf("op data truncated - expected %d, got %d", 13+op.value, len(data))
 		}
 		op.opN = int(binary.LittleEndian.Uint32(data[13:17]))
